@@ -221,7 +221,7 @@ class Reference:
             ent["lin"] = obs.read_subjacs(m.prob)
             ent["out_after_lin"] = obs.read_outputs(m.prob)
             bad = obs.all_finite(ent["out"])
-            if bad:
+            if bad and not zoo.is_wind_off(point):
                 raise HarnessError("reference not finite at %s (zoo range inadmissible): %s" % (key, bad))
         if need == "tot" and "tot" not in ent:
             m = self._fresh(point)
@@ -344,7 +344,9 @@ def execute(hist, stop_at_first=True, known=None, collect=True):
         r = ref.get(cur, cur_point, "out")
         live = obs.read_outputs(prob)
         nf = obs.all_finite(live)
-        if nf:
+        if nf and np.all(np.isfinite(r["out"].get(nf, np.array([np.nan])))):
+            # non-finite where the fresh Problem is finite (at a wind-off point coefficient-type outputs are 0/0 in
+            # both, which the NaN-pattern-aware comparison below handles)
             violation("nonfinite", nf, float("inf"), 0.0, opi)
             return
         cs = obs.component_scale(r["out"])
@@ -409,8 +411,8 @@ def execute(hist, stop_at_first=True, known=None, collect=True):
             break
         kind = op["op"]
         legal = True
-        if kind in ("linearize", "compute_totals", "check_partials", "check_totals") and not converged:
-            legal = False
+        if kind in ("linearize", "compute_totals", "check_partials", "check_totals") and (not converged or zoo.is_wind_off(cur_point)):
+            legal = False  # never linearise an unconverged model, nor a wind-off point (0/0 functionals)
         if kind in ("run_model", "scribble", "abort", "run_driver", "starve") and cur is None:
             legal = False
         if kind == "run_driver" and not spec.get("driver"):
